@@ -1,0 +1,184 @@
+//! This module defines a renaming of shadowing binders which is performed before the translation.
+//!
+//! The translation places the continuation of a term under the binders occurring in this term.
+//! This continuation may mention variables, covariables and labels of the enclosing scopes. If one
+//! of the binders has the same name as one of these, the name in the continuation would be
+//! captured and change its meaning. This can only happen if the binder shadows a name in scope, so
+//! we give each such binder a fresh name first. Binders that do not shadow anything are kept.
+
+use fun::{
+    syntax::{
+        arguments::Arguments,
+        declarations::Def,
+        names::{Var, fresh_name},
+        terms::{Clause, Term},
+    },
+    traits::used_binders::UsedBinders,
+};
+
+use std::{collections::HashSet, rc::Rc};
+
+/// This struct keeps track of the names in scope during the renaming.
+struct Scope {
+    /// The binders currently in scope (innermost last) with their original and their new name.
+    renaming: Vec<(Var, Var)>,
+    /// All names used in the current top-level function.
+    used: HashSet<Var>,
+}
+
+impl Scope {
+    /// This function returns the current name of a (co)variable.
+    fn lookup(&self, var: &Var) -> Var {
+        self.renaming
+            .iter()
+            .rev()
+            .find(|(old, _)| old == var)
+            .map_or_else(|| var.clone(), |(_, new)| new.clone())
+    }
+
+    /// This function brings a binder into scope and returns its name, which is fresh if the binder
+    /// shadows a name in scope.
+    fn bind(&mut self, var: Var) -> Var {
+        let new = if self.renaming.iter().any(|(old, _)| *old == var) {
+            fresh_name(&mut self.used, &var)
+        } else {
+            var.clone()
+        };
+        self.renaming.push((var, new.clone()));
+        new
+    }
+
+    /// This function removes the innermost `number` binders from the scope.
+    fn unbind(&mut self, number: usize) {
+        self.renaming.truncate(self.renaming.len() - number);
+    }
+}
+
+fn freshen_rc(term: Rc<Term>, scope: &mut Scope) -> Rc<Term> {
+    Rc::new(freshen_term(Rc::unwrap_or_clone(term), scope))
+}
+
+fn freshen_arguments(mut arguments: Arguments, scope: &mut Scope) -> Arguments {
+    arguments.entries = arguments
+        .entries
+        .into_iter()
+        .map(|term| freshen_term(term, scope))
+        .collect();
+    arguments
+}
+
+fn freshen_clause(mut clause: Clause, scope: &mut Scope) -> Clause {
+    let number = clause.context_names.bindings.len();
+    for position in 0..number {
+        let new = scope.bind(clause.context_names.bindings[position].clone());
+        if let Some(binding) = clause.context.bindings.get_mut(position) {
+            binding.var.clone_from(&new);
+        }
+        clause.context_names.bindings[position] = new;
+    }
+    clause.body = freshen_term(clause.body, scope);
+    scope.unbind(number);
+    clause
+}
+
+fn freshen_term(term: Term, scope: &mut Scope) -> Term {
+    match term {
+        Term::XVar(mut var) => {
+            var.var = scope.lookup(&var.var);
+            var.into()
+        }
+        Term::Lit(lit) => lit.into(),
+        Term::Op(mut op) => {
+            op.fst = freshen_rc(op.fst, scope);
+            op.snd = freshen_rc(op.snd, scope);
+            op.into()
+        }
+        Term::IfC(mut ifc) => {
+            ifc.fst = freshen_rc(ifc.fst, scope);
+            ifc.snd = ifc.snd.map(|snd| freshen_rc(snd, scope));
+            ifc.thenc = freshen_rc(ifc.thenc, scope);
+            ifc.elsec = freshen_rc(ifc.elsec, scope);
+            ifc.into()
+        }
+        Term::PrintI64(mut print) => {
+            print.arg = freshen_rc(print.arg, scope);
+            print.next = freshen_rc(print.next, scope);
+            print.into()
+        }
+        Term::Let(mut r#let) => {
+            r#let.bound_term = freshen_rc(r#let.bound_term, scope);
+            r#let.variable = scope.bind(r#let.variable);
+            r#let.in_term = freshen_rc(r#let.in_term, scope);
+            scope.unbind(1);
+            r#let.into()
+        }
+        Term::Call(mut call) => {
+            call.args = freshen_arguments(call.args, scope);
+            call.into()
+        }
+        Term::Constructor(mut constructor) => {
+            constructor.args = freshen_arguments(constructor.args, scope);
+            constructor.into()
+        }
+        Term::Destructor(mut destructor) => {
+            destructor.scrutinee = freshen_rc(destructor.scrutinee, scope);
+            destructor.args = freshen_arguments(destructor.args, scope);
+            destructor.into()
+        }
+        Term::Case(mut case) => {
+            case.scrutinee = freshen_rc(case.scrutinee, scope);
+            case.clauses = case
+                .clauses
+                .into_iter()
+                .map(|clause| freshen_clause(clause, scope))
+                .collect();
+            case.into()
+        }
+        Term::New(mut new) => {
+            new.clauses = new
+                .clauses
+                .into_iter()
+                .map(|clause| freshen_clause(clause, scope))
+                .collect();
+            new.into()
+        }
+        Term::Goto(mut goto) => {
+            goto.target = scope.lookup(&goto.target);
+            goto.term = freshen_rc(goto.term, scope);
+            goto.into()
+        }
+        Term::Label(mut label) => {
+            label.label = scope.bind(label.label);
+            label.term = freshen_rc(label.term, scope);
+            scope.unbind(1);
+            label.into()
+        }
+        Term::Exit(mut exit) => {
+            exit.arg = freshen_rc(exit.arg, scope);
+            exit.into()
+        }
+        Term::Paren(mut paren) => {
+            paren.inner = freshen_rc(paren.inner, scope);
+            paren.into()
+        }
+    }
+}
+
+/// This function gives each binder in the body of a top-level function that shadows a name in
+/// scope a fresh name, so that no name can be captured during the translation.
+/// - `def` is the top-level function.
+pub fn freshen_shadowing_binders(mut def: Def) -> Def {
+    let mut used = def.context.vars();
+    def.body.used_binders(&mut used);
+    let mut scope = Scope {
+        renaming: def
+            .context
+            .bindings
+            .iter()
+            .map(|binding| (binding.var.clone(), binding.var.clone()))
+            .collect(),
+        used,
+    };
+    def.body = freshen_term(def.body, &mut scope);
+    def
+}
